@@ -457,14 +457,13 @@ Qed.
 (* creating intentions in any order *)
 
 Lemma replace_by_id_fresh i t :
-  (forall j, In j t -> i_id j <> i_id i) -> replace_by_id i t = t ++ [i].
+  (forall j, In j t -> lower (i_id j) <> lower (i_id i)) -> replace_by_id i t = t ++ [i].
 Proof.
   induction t as [|j t IH]; intros H; cbn [replace_by_id app]; [reflexivity|].
-  destruct (String.eqb_spec (i_id j) (i_id i)) as [E|E].
+  unfold id_eqb. destruct (String.eqb_spec (lower (i_id j)) (lower (i_id i))) as [E|E].
   - exfalso. apply (H j); [left; reflexivity|exact E].
   - rewrite IH; [reflexivity|]. intros k Hk. apply H. right; exact Hk.
 Qed.
-
 
 Lemma set_prec_id w : i_id (set_prec w) = i_id w.
 Proof. reflexivity. Qed.
@@ -486,7 +485,7 @@ Proof.
       - rewrite replace_by_id_fresh; [reflexivity|].
         intros j Hj E. rewrite set_prec_id in E.
         rewrite map_app in Hid. apply NoDup_remove_2 in Hid.
-        apply Hid. apply in_or_app. left. rewrite <- E. apply in_map. exact Hj. }
+        apply Hid. apply in_or_app. left. rewrite <- E. apply (in_map (fun i => lower (i_id i))). exact Hj. }
     cbn [snd]. rewrite IH.
     + rewrite <- app_assoc. reflexivity.
     + split; [|split].
